@@ -10,7 +10,7 @@ from ..util import Info, impl
 
 ID = "C01"
 LEVEL = "exploration"
-BUDGET = {"quick": 7000, "thorough": 1200000}
+BUDGET = {"quick": 7000, "thorough": 250000}
 RULE = (
     "case = (prune flag, history of set/delete/set-empty ops in method or dict syntax, "
     "directly or inside committed squash_changes batches; keys from structure-directed "
